@@ -10,7 +10,7 @@ from .c01 import _fold_rep
 from sa.layout import Layout
 from sa.decide import Walker, cmp_parts
 
-TECHNIQUE = ("provenance expansion of the hash computation and of every value written to disk, "
+TECHNIQUE = ("hash-stream canonical form of the hash computation, operation-indexed decision walk of signapp, no-skip path rule of the signing loop, provenance expansion and of every value written to disk, "
              "taint-style confinement of the one-time key (which calls may receive it), module-state and "
              "caching census for key freshness")
 EXPLANATION = (
